@@ -79,6 +79,14 @@ func (s *Script) Assume(term string) {
 	s.body = append(s.body, "(assert "+term+")")
 }
 
+// AssumeAxiom records a definitional axiom of a spec function.  It is only included in queries in which its
+// primary symbol occurs (irrelevant quantified axioms make the solvers diverge).
+func (s *Script) AssumeAxiom(term string) {
+	s.body = append(s.body, axiomPrefix+term+")")
+}
+
+const axiomPrefix = "(assert (! "
+
 func (s *Script) Mark() int { return len(s.body) }
 
 func isAtom(t string) bool {
@@ -263,12 +271,17 @@ type Result struct {
 }
 
 func (o *Obligation) Query(getModel bool) string {
-	var b bytes.Buffer
-	for _, d := range o.script.decls {
-		b.WriteString(d)
-		b.WriteByte('\n')
+	var d, b bytes.Buffer
+	for _, l := range o.script.decls {
+		d.WriteString(l)
+		d.WriteByte('\n')
 	}
+	var axioms []string
 	for _, l := range o.script.body[:o.Prefix] {
+		if strings.HasPrefix(l, axiomPrefix) {
+			axioms = append(axioms, "(assert "+strings.TrimSuffix(strings.TrimPrefix(l, axiomPrefix), ")")+")")
+			continue
+		}
 		b.WriteString(l)
 		b.WriteByte('\n')
 	}
@@ -286,7 +299,33 @@ func (o *Obligation) Query(getModel bool) string {
 		b.WriteString("(get-value (" + strings.Join(o.GetVals, " ") + "))\n")
 	}
 	body := b.String()
-	return "(set-option :produce-models true)\n(set-logic ALL)\n" + preludeText(body) + body
+	var ab strings.Builder
+	if len(axioms) > 0 {
+		// fixpoint: an axiom is relevant if its primary spec symbol occurs in the query or in a relevant axiom
+		included := make([]bool, len(axioms))
+		text := body
+		for changed := true; changed; {
+			changed = false
+			for i, a := range axioms {
+				if included[i] {
+					continue
+				}
+				if m := specSymRe.FindString(a); m == "" || strings.Contains(text, m) {
+					included[i] = true
+					text += a
+					changed = true
+				}
+			}
+		}
+		for i, a := range axioms {
+			if included[i] {
+				ab.WriteString(a)
+				ab.WriteByte('\n')
+			}
+		}
+	}
+	all := d.String() + ab.String() + body
+	return "(set-option :produce-models true)\n(set-logic ALL)\n" + preludeText(all) + all
 }
 
 type solverSpec struct {
@@ -406,6 +445,8 @@ func Solve(o *Obligation, timeoutS int, confirm bool) *Result {
 	}
 	return r
 }
+
+var specSymRe = regexp.MustCompile(`\|spec\$[^|]*\|`)
 
 var modelRe = regexp.MustCompile(`\((\|[^|]*\||[^\s()]+|\([^()]*(?:\([^()]*\)[^()]*)*\))\s+((?:\(-\s*[0-9./ ]+\))|[^\s()]+|\([^()]*(?:\([^()]*(?:\([^()]*\)[^()]*)*\)[^()]*)*\))\)`)
 
